@@ -687,13 +687,13 @@ SUBCHECKS = [
     SubCheck("fractions", check_fractions, strategy=mixtures(), quick=600, thorough=30000,
              rule="1-6 distinct G1 formulas, coefficients int 1..1e6 / positive floats / set (unit multiplicity)",
              tolerances={"sum_to_one_abs": 1e-12, "proportional_rel": 1e-12}),
-    SubCheck("fractions_args", check_fractions, strategy=mixtures(with_call=True), quick=600, thorough=30000,
+    SubCheck("fractions_args", check_fractions, strategy=mixtures(with_call=True), quick=600, thorough=15000,
              rule="the same mixtures through the other two parameters of mass_fractions: substances= a dict/OrderedDict "
                   "of Substance/Species objects in the order of the stoichiometry or permuted, with 0-3 unrelated extra "
                   "entries, keyed by the formula or by a label; substance_factory= Substance.from_formula, "
                   "Species.from_formula, a wrapper, a table lookup; by keyword or by position",
              tolerances={"sum_to_one_abs": 1e-12, "proportional_rel": 1e-12}),
-    SubCheck("shared_data", check_shared_data, strategy=shared_data_cases(), quick=600, thorough=30000,
+    SubCheck("shared_data", check_shared_data, strategy=shared_data_cases(), quick=600, thorough=15000,
              rule="2-4 substances from G1 formulas via Substance/Species.from_formula(text[, data=d]) with one free-form "
                   "dict d (non-empty or empty, no 'mass' entry) shared by all / by groups / own copies / none, created up "
                   "front or at first use; 2-8 reads (.mass, .molar_mass(), mass_fractions(..., substances=<these "
